@@ -757,7 +757,7 @@ def table(tier):
 
 
 SUBS = [
-    Sub("random", check, strategy=strat_random, quick=1200, thorough=30000, workers_quick=2,
+    Sub("random", check, strategy=strat_random, quick=1500, thorough=30000, workers_quick=4,
         workers_thorough=16, budget_quick=50, budget_thorough=480),
     Sub("table", check, enumerate=table, workers_quick=2, workers_thorough=16, budget_quick=50,
         budget_thorough=540),
